@@ -310,7 +310,7 @@ func ruleR14b(c *Ctx) {
 		if builder != nil {
 			bf := closureOf(builder, 0)
 			for _, a := range realCall.Call.Args {
-				if a == builder || (bf != nil && closureOf(a, 0) == bf) {
+				if a == builder || strip(a) == strip(builder) || (bf != nil && closureOf(a, 0) == bf) {
 					same = true
 				}
 			}
